@@ -1,10 +1,10 @@
 #!/bin/bash
-# usage: try_patch.sh <patch.diff> <Cxx> [tier]  : apply patch to /repo, run the check, always revert
+# usage: try_patch.sh <patch.diff> <Cxx> [tier]  : apply patch to /repo, run the check (evidence redirected to /tmp/seed_ev so the committed evidence of the unchanged tree is not overwritten), always revert
 P=$(realpath $1); ID=$2; T=${3:-quick}
 cd /repo || exit 2
 git apply --check "$P" 2>/dev/null || { echo "PATCH DOES NOT APPLY: $P"; exit 2; }
 git apply "$P"
-cd /verif; ./check $ID --tier $T 2>&1 | grep -E "^VIOLATION|^  what|^KNOWN|^INCONCLUSIVE|^BROKEN|^property=" | cut -c1-330 | head -12
+cd /verif; VERIF_EVIDENCE_DIR=/tmp/seed_ev ./check $ID --tier $T 2>&1 | grep -E "^VIOLATION|^  what|^KNOWN|^INCONCLUSIVE|^BROKEN|^property=" | cut -c1-330 | head -12
 rc=${PIPESTATUS[0]}
 git -C /repo checkout -- . ; git -C /repo status --short | grep -v _build
 exit $rc
